@@ -3,7 +3,7 @@
    Print Assumptions.  Every predicate and function used in the statements is defined in Model.v (Part II for the
    invariants, abstraction functions, runners and bounds). *)
 From Coq Require Import ZArith List Bool Lia Arith Permutation.
-From C12 Require Import Gen Model ProofsBase ProofsVec ProofsSeq ProofsAL ProofsHM1 ProofsHM2 ProofsFM ProofsHM3 ProofsHM4 ProofsHM5 ProofsHM6 ProofsHM7 ProofsHash ProofsSB ProofsSBA ProofsOOM ProofsDL.
+From C12 Require Import Gen Model ProofsBase ProofsVec ProofsSeq ProofsAL ProofsHM1 ProofsHM2 ProofsFM ProofsHM3 ProofsHM4 ProofsHM5 ProofsHM6 ProofsHM7 ProofsHash ProofsSB ProofsSBA ProofsOOM ProofsDL ProofsIter.
 Import ListNotations.
 
 (* ---- vector: every operation of a well-formed vector returns what the list operation returns, leaves a
@@ -355,6 +355,19 @@ Theorem C12_hash_coherent_integer_boolean :
 Proof. exact (conj hash_int_coherent hash_bool_coherent). Qed.
 Print Assumptions C12_hash_coherent_integer_boolean.
 
+(* strings and float32 keys: string == is equality of the byte contents and hash.hash of a string is hash.long over
+   those bytes, so equal strings hash alike (and == on strings is an equivalence); for float32 the only distinct bit
+   patterns that are == are the two zeros, and both hash to 0 (== is symmetric and transitive, NaN is not == to itself) *)
+Theorem C12_hash_coherent_string_float32 :
+  (forall a b : list Z, str_eqb a b = true -> hash_string a = hash_string b) /\
+  ((forall a, str_eqb a a = true) /\ (forall a b, str_eqb a b = str_eqb b a) /\
+   (forall a b c, str_eqb a b = true -> str_eqb b c = true -> str_eqb a c = true)) /\
+  (forall a b : Z, g_eqb a b = true -> hash_float32 a = hash_float32 b) /\
+  (forall a b, g_eqb a b = g_eqb b a) /\
+  (forall a b c, g_eqb a b = true -> g_eqb b c = true -> g_eqb a c = true).
+Proof. exact (conj hash_string_coherent (conj str_eqb_equiv (conj hash_float32_coherent (conj g_eqb_sym g_eqb_trans)))). Qed.
+Print Assumptions C12_hash_coherent_string_float32.
+
 (* ---- stringbuilder: refinement to the byte string, for every operation used within its documented
    protocol.  One step: [sb_op_ok_at b]: the client of prepare(n) writes no more bytes than the span prepare
    returned in that state holds (capacity - size - 1 >= n).  Histories: the static sufficient condition [sb_op_ok]
@@ -436,6 +449,47 @@ Theorem C12_span_guards : forall (T : Type) (i j : nat) (s : list T),
    (~ (i <= j /\ j <= length s) -> span_sub T i j s = Trap TrapIndex)).
 Proof. exact (fun T i j s => conj (span_at_guard T i s) (span_sub_guard T i j s)). Qed.
 Print Assumptions C12_span_guards.
+
+(* ---- iterators.nelua: a `for` driven by ipairs (vector, span), pairs (list, hashmap) - equally by next with the
+   previous control value, which is the same function - visits exactly the elements / bindings of the container in the
+   order of its abstract model: list order with the indices 0.. for vector and span, the nodes front to back for the
+   list, node order (= the order of the hash-free flat map) for the hashmap; the container is left unchanged. *)
+Theorem C12_iterators_visit_in_order :
+  (forall (T : Type) (v : vec T), vec_wf T v ->
+     vec_ipairs T v = Ok (v, combine (map Z.of_nat (List.seq 0 (vec_len T v))) (vec_contents T v))) /\
+  (forall (T : Type) (mem : list T) (w : spanw), sp_wf mem w ->
+     span_ipairs T mem w = Ok (w, combine (map Z.of_nat (List.seq 0 (sp_size w))) (sp_view T mem w))) /\
+  (forall (T : Type) (dflt : T) (d : dlist T) (idx : list nat), dl_wf T d idx ->
+     dl_pairs T d = Ok (d, combine (map Some idx) (vals T dflt (larena T d) idx))) /\
+  (forall (K V : Type) (m : hmap K V), exists l, hm_for_pairs K V m = Ok (m, l) /\ map snd l = hm_abs K V m).
+Proof. exact (conj vec_ipairs_ok (conj span_ipairs_ok (conj dl_pairs_ok hm_for_pairs_ok))). Qed.
+Print Assumptions C12_iterators_visit_in_order.
+
+(* the references handed out by mipairs / mpairs / mnext alias the stored elements: &v[i] reads as v[i] and writes as
+   v[i] = x, so `for i, x in mipairs(v) do $x = f($x) end` is the element-wise update (capacity unchanged); the list's
+   reference is the node whose value pairs() yields; the hashmap's is the filled node whose binding pairs() yields *)
+Theorem C12_iterators_references_alias :
+  (forall (T : Type) (i : nat) (v : vec T) (r : nat) (v' : vec T), vec_ref T i v = Ok (v', r) ->
+     v' = v /\ vec_ref_read T r v = vec_at T i v /\ forall x, vec_ref_write T r x v = vec_assign T i x v) /\
+  (forall (T : Type) (f : T -> T) (v : vec T), vec_wf T v ->
+     exists v', vec_mipairs_map T f v = Ok v' /\ vec_wf T v' /\ vec_contents T v' = map f (vec_contents T v) /\
+                vec_cap T v' = vec_cap T v) /\
+  (forall (T : Type) (d : dlist T) (node : option nat),
+     match dl_next T d node with
+     | Ok (d', Some (c, x)) => exists nd, dl_mnext T d node = Ok (d', Some (c, match c with Some j => j | None => 0 end)) /\
+                                 match c with Some j => nth_error (larena T d) j = Some nd /\ lval T nd = x | None => False end
+     | Ok (d', None) => dl_mnext T d node = Ok (d', None)
+     | Trap t => dl_mnext T d node = Trap t
+     end) /\
+  (forall (K V : Type) (m : hmap K V) (it : option nat),
+     match hm_it_next K V m it with
+     | Ok (m', Some (c, kv)) => exists i nd, c = Some i /\ hm_it_mnext K V m it = Ok (m', Some (c, i)) /\
+                                  nth_error (hnodes K V m) i = Some nd /\ nfilled K V nd = true /\ (nkey K V nd, nval K V nd) = kv
+     | Ok (m', None) => hm_it_mnext K V m it = Ok (m', None)
+     | Trap t => False
+     end).
+Proof. exact (conj vec_ref_alias (conj vec_mipairs_map_ok (conj dl_mnext_alias hm_it_mnext_alias))). Qed.
+Print Assumptions C12_iterators_references_alias.
 
 (* ---- list (doubly linked): [dl_wf d idx]: idx lists the node indices front to back without repetition, every
    listed node is alive and its prev/next pointers are exactly its neighbours in idx, front/back are the ends.
